@@ -39,6 +39,12 @@ def configs(tier):
         ["".join(s) for n in (1, 2, 3) for s in itertools.product("XYZ", repeat=n)]
     for s in dstr:
         out.append({"mode": "default-dict", "basis": s})
+    # _rotate_basis_state enumerates the rotated sub-space with generate_hilbert_space(size = number of non-Z sites) and
+    # explicit states are indexed through _convert_basis_element_to_index: the rotation contracts above are proved per
+    # basis string for up to 3-4 sites and rely on these two callees for every size; their contract (C19's exhaustive
+    # obligation set) is shared here
+    for size in (range(1, 13) if tier == "quick" else range(1, 21)):
+        out.append({"mode": "callee", "callee": "indexing", "size": size})
     return out
 
 
@@ -99,6 +105,9 @@ def _rho_stub(rho_c):
 
 
 def run_config(ctx, cfg):
+    if cfg["mode"] == "callee":
+        from lemmas import C19
+        return C19._indexing(ctx, {"part": "indexing", "size": cfg["size"]})
     if cfg["mode"] == "dictionary":
         return _dictionary(ctx)
     return _rotations(ctx, cfg)
